@@ -32,6 +32,7 @@ CONSTANTS
   Coord,      \* [position -> Int]  coordinate of a prompt position
   DocCoord,   \* [document -> Int]  coordinate of a knowledge-base chunk
   DocTokens,  \* [document -> set of tokens] the words a text analyser splits the id into
+  DocInside,  \* [document -> set of documents whose id contains this document's id as a substring]
   ThrF,       \* firewall distance threshold
   ThrC,       \* cache distance threshold
   RagR,       \* retrieval radius: an answer at p cites the documents within RagR of p
@@ -47,6 +48,7 @@ CONSTANTS
   K_ScoreIsSimilarity,  \* thresholds are compared with 1/(1+d) instead of d
   K_NearestOnly,        \* the cache looks at the single nearest entry only
   K_Inval               \* "exact" | "noop" (no text index on the cache) | "token" (any shared token)
+                        \* | "substring" (the id occurs anywhere in the sources text)
 
 VARIABLES
   cfg,     \* the configuration of this run (fixed by Init)
@@ -99,6 +101,12 @@ Boundary(r)  == cfg.fw /\ ~r.pat /\ FwClass(r.pos) = "at"
 Servable(r)  == {e \in cache : e.fresh /\ Near(r.pos, e.pos)}
 CacheApplies(r) == cfg.cache /\ ~r.stream
 
+\* the situation that separates "some fresh entry within the distance" from "the nearest entry":
+\* an expired entry within the distance lies at least as near to the request as every servable one
+Shadowed(r)  == /\ CacheApplies(r) /\ Servable(r) # {}
+                /\ \E x \in cache : /\ ~x.fresh /\ Near(r.pos, x.pos)
+                                    /\ \A e \in Servable(r) : PD(r.pos, x.pos) <= PD(r.pos, e.pos)
+
 \* the outcomes the property allows for request r in the current state
 Accept(r) ==
   IF MustBlock(r) THEN {"blocked"}
@@ -144,6 +152,7 @@ Invalidate(c, d) ==
   CASE K_Inval = "exact" -> InvalidateExact(c, d)
     [] K_Inval = "noop"  -> c
     [] K_Inval = "token" -> {e \in c : TokensOf(e.src) \cap DocTokens[d] = {}}
+    [] K_Inval = "substring" -> {e \in c : e.src \cap DocInside[d] = {}}
 
 (***************************************************************************)
 (* Actions.                                                                 *)
@@ -168,7 +177,7 @@ Request(r) ==
       /\ hist' = Append(hist, [op |-> "Req", pos |-> r.pos, pat |-> r.pat, mark |-> r.mark,
                                stream |-> r.stream, rag |-> r.rag, cites |-> SrcOf(r),
                                dFw |-> FwClass(r.pos), dCache |-> CacheClass(r.pos),
-                               accept |-> Accept(r), servable |-> {e.born : e \in Servable(r)},
+                               accept |-> Accept(r), servable |-> {e.born : e \in Servable(r)}, shadow |-> Shadowed(r),
                                out |-> res.out, from |-> res.from, du |-> du, save |-> res.save,
                                term |-> ~Determined(r), cache |-> c2])
       /\ UNCHANGED <<cfg, ticks>>
@@ -194,6 +203,8 @@ Inval(d) ==
   /\ cache' = Invalidate(cache, d)
   /\ hist' = Append(hist, [op |-> "Inval", doc |-> d,
                            gone |-> {e.born : e \in cache \ InvalidateExact(cache, d)},
+                           \* survivors that cite other documents: what an inexact match would take along
+                           others |-> UNION {e.src : e \in InvalidateExact(cache, d)},
                            cache |-> cache'])
   /\ UNCHANGED <<cfg, up, ticks, open>>
 
